@@ -11,12 +11,16 @@ TraceLog == ndJsonDeserialize(TraceFile)
 
 Nodes == 1..3
 Shards == 1..3
-VARIABLES l, delivered, last     \* delivered[n][s]: set of updates; last[n][s]: last observed view
-vars == <<l, delivered, last>>
+VARIABLES l, delivered, last,    \* delivered[n][s]: set of updates; last[n][s]: last observed view
+          local                  \* local[n][s]: what node n's own NodeHost reports about shard s ({} = the shard does not run there)
+vars == <<l, delivered, last, local>>
 
 Ev == TraceLog[l]
 IsEvent(name) == l <= Len(TraceLog) /\ Ev.ev = name /\ l' = l + 1
-TInit == l = 1 /\ delivered = [n \in Nodes |-> [s \in Shards |-> {}]] /\ last = [n \in Nodes |-> [s \in Shards |-> Empty]]
+NoLocal == [n \in Nodes |-> [s \in Shards |-> {}]]
+TInit == l = 1 /\ delivered = [n \in Nodes |-> [s \in Shards |-> {}]] /\ last = [n \in Nodes |-> [s \in Shards |-> Empty]] /\ local = NoLocal
+\* every path that re-reads the local Raft information merges it: the node has then been told local[n] as well
+WithLocal(d, n) == [d EXCEPT ![n] = [s \in Shards |-> @[s] \cup local[n][s]]]
 
 U(x) == [cc |-> x.cc, reps |-> x.reps, leader |-> x.leader, term |-> x.term]
 
@@ -25,13 +29,28 @@ TUpdate ==
   /\ IsEvent("update")
   /\ delivered' = [delivered EXCEPT ![Ev.node] =
         [s \in Shards |-> @[s] \cup {U(Ev.ups[i]) : i \in {j \in 1..Len(Ev.ups) : Ev.ups[j].shard = s}}]]
-  /\ UNCHANGED last
+  /\ UNCHANGED <<last, local>>
+
+\* {"ev":"local","node":n,"ups":[...]}: the node's NodeHost now reports exactly these shards (no call into the code)
+TLocal ==
+  /\ IsEvent("local")
+  /\ local' = [local EXCEPT ![Ev.node] =
+        [s \in Shards |-> {U(Ev.ups[i]) : i \in {j \in 1..Len(Ev.ups) : Ev.ups[j].shard = s}}]]
+  /\ UNCHANGED <<delivered, last>>
+
+\* {"ev":"notify","node":n}: a Raft event, Cluster.Notify merges the local information. A shard that does not run
+\* locally (any more) keeps what is known about it: knowledge of a term is never given up
+TNotify ==
+  /\ IsEvent("notify")
+  /\ delivered' = WithLocal(delivered, Ev.node)
+  /\ UNCHANGED <<last, local>>
 
 \* push-pull state exchange: everything node "from" knows reaches node "to"
 TGossip ==
   /\ IsEvent("gossip")
-  /\ delivered' = [delivered EXCEPT ![Ev.to] = [s \in Shards |-> @[s] \cup delivered[Ev.from][s]]]
-  /\ UNCHANGED last
+  /\ LET d1 == WithLocal(delivered, Ev.from)      \* LocalState re-reads the sender's local information first
+     IN delivered' = [d1 EXCEPT ![Ev.to] = [s \in Shards |-> @[s] \cup d1[Ev.from][s]]]
+  /\ UNCHANGED <<last, local>>
 
 \* observed view of one shard on one node (what response headers are built from)
 TView ==
@@ -41,16 +60,16 @@ TView ==
      /\ (j.cc # 0 => Ev.reps = j.reps)
   /\ Ev.term >= last[Ev.node][Ev.shard].term           \* never backwards in term
   /\ last' = [last EXCEPT ![Ev.node][Ev.shard] = U(Ev)]
-  /\ UNCHANGED delivered
+  /\ UNCHANGED <<delivered, local>>
 
 \* a membership event of the gossip layer (a member joined, left or changed): it brings no Raft information of its own
-\* (the node re-reads its LOCAL Raft information, which is empty in this driver), so the view stays the join of what was
-\* delivered - a member that leaves does not take knowledge about terms with it
-TMember == IsEvent("member") /\ UNCHANGED <<delivered, last>>
+\* (the node re-reads its LOCAL Raft information), so the view stays the join of what was delivered and the local
+\* information - a member that leaves does not take knowledge about terms with it
+TMember == IsEvent("member") /\ delivered' = WithLocal(delivered, Ev.node) /\ UNCHANGED <<last, local>>
 
-TReset == IsEvent("reset") /\ delivered' = [n \in Nodes |-> [s \in Shards |-> {}]] /\ last' = [n \in Nodes |-> [s \in Shards |-> Empty]]
+TReset == IsEvent("reset") /\ delivered' = [n \in Nodes |-> [s \in Shards |-> {}]] /\ last' = [n \in Nodes |-> [s \in Shards |-> Empty]] /\ local' = NoLocal
 
-TNext == TUpdate \/ TGossip \/ TView \/ TMember \/ TReset
+TNext == TUpdate \/ TGossip \/ TView \/ TMember \/ TReset \/ TLocal \/ TNotify
 TSpec == TInit /\ [][TNext]_vars
 
 TraceAccepted ==
